@@ -612,6 +612,7 @@ func (lsm *LSM) startFlushWorkers(n int) {
 
 				func() {
 					defer mt.DecrRef()
+					utils.VerifYield("lsm.flush", uint64(mt.segmentID))
 					if err := lsm.levels.flush(mt); err != nil {
 						if updateErr := lsm.flushMgr.Update(task.ID, flush.StageRelease, nil, err); updateErr != nil {
 							_ = utils.Err(updateErr)
